@@ -120,3 +120,18 @@ def notrace():
     except Exception:  # pragma: no cover
         import contextlib
         return contextlib.nullcontext()
+
+
+def pick(x, lo, hi):
+    """Exhaustive realization of a small symbolic int: one solver-decided branch per value in [lo, hi]
+    (crosshair.realize() samples without ever exhausting; this forks and therefore can be *confirmed*)."""
+    if isinstance(x, bool) or (lo == 0 and hi == 1 and not isinstance(x, int)):
+        return True if x else False
+    for v in range(lo, hi + 1):
+        if x == v:
+            return v
+    raise AssertionError('pick(): value outside [%d, %d]' % (lo, hi))
+
+
+def pickb(x):
+    return True if x else False
